@@ -7,4 +7,4 @@ mkdir -p /tmp/vdev/rt /tmp/vdev/h
 rm -f /tmp/vdev/rt/*.go
 /tmp/vdev/rewrite $REPO /tmp/vdev/rt >/dev/null || exit 1
 cp $REPO/go.mod /tmp/vdev/rt/ && rsync -a --delete /verif/vfs/ /tmp/vdev/rt/verifvfs/ && cp /verif/export/*.go /tmp/vdev/rt/
-rsync -a --delete /verif/harness/ /tmp/vdev/h/ && cd /tmp/vdev/h && go vet -tags have_autocompact,have_suggest ./... && go build -tags have_autocompact,have_suggest -o ../harness . && echo built
+rsync -a --delete /verif/harness/ /tmp/vdev/h/ && cd /tmp/vdev/h && go vet -tags have_autocompact,have_suggest,have_compactrange ./... && go build -tags have_autocompact,have_suggest,have_compactrange -o ../harness . && echo built
